@@ -67,7 +67,7 @@ ASSUMPTIONS = [
     "the case by numpy RandomState (deterministic function of the case)",
 ]
 PROFILE = {
-    "quick": dict(examples=2500, shards=16, budget_s=90),
+    "quick": dict(examples=4000, shards=16, budget_s=90),
     "thorough": dict(examples=14000, shards=16, budget_s=1100),
 }
 
